@@ -1242,18 +1242,29 @@ class ContactHandler(Messenger, dbus.service.Object):
             self._logger.info('Closing in terminating state')
             self.close()
 
-    def recv_sess_term(self, reason):
-        Messenger.recv_sess_term(self, reason)
-
-        # No further processing
+    def _tx_flush_pend_start(self):
+        ''' Report (and forget) all transfers which will never be started. '''
         while self._tx_pend_start:
             item = self._tx_pend_start.pop(0)
+            self._tx_map.pop(item.transfer_id, None)
             self._logger.warning('Terminating and ignoring transfer %d', item.transfer_id)
             self.send_bundle_finished(
                 str(item.transfer_id),
                 item.total_length or 0,
                 'session terminating'
             )
+
+    def send_sess_term(self, reason, is_reply):
+        Messenger.send_sess_term(self, reason, is_reply)
+
+        # No further transfers are started after SESS_TERM is sent
+        self._tx_flush_pend_start()
+
+    def recv_sess_term(self, reason):
+        Messenger.recv_sess_term(self, reason)
+
+        # No further processing
+        self._tx_flush_pend_start()
         self._check_sess_term()
 
     def recv_xfer_data(self, transfer_id, flags, data, ext_items):
@@ -1490,6 +1501,11 @@ class ContactHandler(Messenger, dbus.service.Object):
             if not self._in_sess:
                 # waiting for session
                 return True
+            if self._in_term:
+                # nothing new is started while terminating
+                self._tx_flush_pend_start()
+                self._check_sess_term()
+                return False
             if not self._tx_pend_start:
                 # nothing to do
                 return False
